@@ -249,6 +249,14 @@ Definition e_timeline (v : uval) : uval := vres (timeline (getbool (arg 0 v)) (g
 Definition e_P16 (v : uval) : uval :=
   vbool (P16 (getbool (arg 0 v)) (getans (arg 1 v)) (getnat (arg 2 v)) setup_kinds (getres (arg 3 v))).
 
+(* a further set-up of the same device: [mixers_present; answers of the first run; answers now; retries (; observed result)] *)
+Definition e_timeline_again (v : uval) : uval :=
+  vres (timeline_again (getbool (arg 0 v)) (getans (arg 1 v)) (getans (arg 2 v)) (getnat (arg 3 v))).
+Definition e_P16_again (v : uval) : uval :=
+  let mixers := getbool (arg 0 v) in
+  let have := r_data (timeline mixers (getans (arg 1 v)) (getnat (arg 3 v))) in
+  vbool (P16 mixers (effective have (getans (arg 2 v))) (getnat (arg 3 v)) setup_kinds (getres (arg 4 v))).
+
 (* ---- C20 ---- *)
 From PV Require Import Model.Filters Spec.C20.
 Definition getfval (v : uval) : fval :=
